@@ -295,6 +295,7 @@ GLUE_BODIES = [
     'const K = 3\nscript S {\n\tswitch (var(VAR_A)) {\n\t\tcase K: a\n\t\tcase 3: b\n\t}\n}\n',
     'mapscripts M {\n\tMAP_SCRIPT_ON_LOAD {\n\t\tlock\n\t}\n\tMAP_SCRIPT_ON_FRAME_TABLE [\n\t\tVAR_T, 1 { end }\n\t]\n}\n',
     'script S {\n\tif (checkitem(ITEM_A, 1) == TRUE) {\n\t\tyes\n\t}\n\tS_1:\n\tno\n}\n',
+    'script Quiz {\n\tif (checkitem(ITEM_T) && msgbox(Quiz_Ready, MSGBOX_YESNO, VAR_TEMP_1) == YES) {\n\t\ta\n\t}\n\tdo {\n\t\tb\n\t} while (msgbox(Quiz_Again, MSGBOX_YESNO, VAR_TEMP_2) == YES)\n\tif (choosemon == 0xFF) {\n\t\tc\n\t}\n}\n',
     '', 'script', '# only a comment', 'script S {\n\tmsgbox("unterminated)\n}\n',
 ]
 def gen_cli(rnd, n):
@@ -315,6 +316,6 @@ def gen_cli(rnd, n):
         cfg = Cfg(optimize=rnd.random() < 0.5, lm=rnd.random() < 0.6, lint=False,
                   path=rnd.choice(["", "", "in.pory", "a b.pory", "Route%20101.pory", "%s%d.pory", "./x.pory", "d1/d2//y.pory", "é.pory", "dir\\sub\\f.pory"]),
                   deffont=rnd.choice(["", "", "sign", "dialog", "nope"]), maxlen=rnd.choice([0, 0, 0, 40, 1000]), switches=sw,
-                  autovars=dict(AUTOVARS), fontdefault=rnd.choice(["dialog", "dialog", "sign", ""]), fonts=fonts, nofc=rnd.random() < 0.12)
+                  autovars=dict(AUTOVARS, msgbox=("", 2), yesnobox=("VAR_0x8005", None)), fontdefault=rnd.choice(["dialog", "dialog", "sign", ""]), fonts=fonts, nofc=rnd.random() < 0.12)
         out.append(Case(compile_line(cfg, src), src, cfg, {"mix": True, "glue": True}))
     return out
